@@ -11,13 +11,13 @@ RULE = ('2-5 real threads make the FIRST request of a fresh SingletonDecorator o
         'SignalSource, ReturnStatusSource, the fabric run event class, the live-output writer class) at the same time, and 2-3 threads '
         'construct ActiveObject() concurrently in a process-fresh state (which requests ActiveFabric, the fabric run event and the writer '
         'lazily); detsched switches threads at every bytecode boundary of SingletonDecorator.__call__ and every line of the constructors '
-        '(seeded random and PCT schedules); all returned objects must be the same object and later requests must return it too. ' +
+        '(seeded random and PCT schedules; in 30% of the runs the thread inside the constructor is held there for 0.5-3 s of virtual time by an injected delay); all returned objects must be the same object and later requests must return it too. ' +
         sysx.RULE_TEXT % (1, 3) +
         'Every twentieth case is a second opinion on REAL threads with the real primitives (vt/osback.py: nothing substituted, switch interval 1 us, random yields at line starts of miros code): 2-6 threads released from a barrier make the first request of a fresh decorator. '
         'distinct_nontrivial = distinct context-switch sequences in which >= 2 threads were inside __call__ at the same time')
 CASES = {'quick': 1500, 'thorough': 100000}
 BUDGET = {'quick': 150, 'thorough': 600}
-REQUIRE = {'runs': 800, 'overlapping_first_requests': 200, 'active_object_constructions': 100, 'systematic_schedules': 300, 'systematic_scenarios_exhausted': 6, 'os_backend_runs': 40}
+REQUIRE = {'runs': 800, 'overlapping_first_requests': 200, 'active_object_constructions': 100, 'systematic_schedules': 300, 'systematic_scenarios_exhausted': 6, 'os_backend_runs': 40, 'runs_with_slow_first_construction': 150}
 SYS = {'quick': (16, 1, 2500, 30.0), 'thorough': (32, 3, 100000, 150.0)}     # systematic cases, preemption bound, schedule cap, seconds cap (per scenario)
 ASSUME = ['fresh SingletonDecorator objects per run (same class as the module-level ones); module-level instances created at import are not re-raced']
 ANNOUNCE_CASES = True
@@ -66,6 +66,12 @@ def scenario(ctx, n):
   pol = dict(policy='random', p_switch=rng.choice([0.1, 0.3, 0.6])) if rng.random() < 0.6 else dict(policy='pct', pct_depth=rng.choice([2, 3]), pct_len=120)
   s = ds.Sched(seed=rng.randrange(1 << 30), max_steps=200000, **pol)
   ds.install(s, op_mods=[SG], line_mods=[AO, EV], line_funcs={AO: ['__init__'], EV: ['__init__']})
+  if not getattr(ctx, 'small', False) and rng.random() < 0.3:
+    # a SLOW first construction: the thread that is inside the constructor is held there for 0.5-3 s of virtual time (a starved
+    # thread on a loaded machine, a constructor that does I/O); every other requester has to wait that long for the same object
+    s.inject = {'match': lambda me, loc: me.role in ('req', 'make') and isinstance(loc, tuple) and loc[0] == '__init__',
+                'visit': rng.randint(1, 4), 'sleep': rng.choice([0.5, 1.6, 3.0])}
+    ctx.count('runs_with_slow_first_construction')
   got = {}
   inside = [0]
   overlap = [False]
